@@ -684,7 +684,8 @@ def main(ctx):
             return rec.fail(case, "file has %d bytes for %d rows of 8 bytes" % (os.path.getsize(fn), total))
         rec.ok(case, outcome="longchunk:%s:%s" % (shape, route), nontrivial=(d == 0))
 
-    cmarks = ctx.pick((100000, 1000000), (65536, 100000, 1000000, 1048576, 2000000))
+    from mc.longarr import marks as _marks
+    cmarks = (100000,) + tuple(_marks(ctx)) + ctx.pick((), (65536, 1000000))          # universal marks, see mc/longarr.py
     lcunits = [(m, d, sh, dl, rt) for m in cmarks for d in (-1, 0, 1) for sh in ("long-short", "short-long", "long-long", "short-long-short")
                for dl in (None, ",") for rt in ("append-by-reopen", "one-handle", "recfile")
                if not (dl == "," and (m > 100000 or d != 0))]
